@@ -280,6 +280,19 @@ fn offsets_event(out: &mut Out, src: &str, t: &Transaction, cached: bool) {
     }
 }
 
+/// an in-place change that MOVES fields (script bytes resized across a word boundary, an input inserted in front); metadata is left as it is
+fn grow_in_place(t: &mut Transaction, rng: &mut StdRng) -> bool {
+    let extra = Input::contract(rng.gen(), rng.gen(), rng.gen(), rng.gen(), rng.gen());
+    match t {
+        Transaction::Script(x) => { fuel_tx::field::Script::script_mut(x).extend_from_slice(&[0x47u8; 12]); if rng.gen_bool(0.5) { x.inputs_mut().insert(0, extra); } true }
+        Transaction::Create(x) => { x.inputs_mut().insert(0, extra); true }
+        Transaction::Upgrade(x) => { x.inputs_mut().insert(0, extra); true }
+        Transaction::Upload(x) => { x.inputs_mut().insert(0, extra); true }
+        Transaction::Blob(x) => { x.inputs_mut().insert(0, extra); true }
+        Transaction::Mint(_) => false,
+    }
+}
+
 fn part_off(o: &Opts, out: &mut Out) {
     let n = if o.thorough() { 3000 } else { 180 };
     for (k, (src, t)) in tx_stream(o, 21, n).into_iter().enumerate() {
@@ -289,7 +302,17 @@ fn part_off(o: &Opts, out: &mut Out) {
         let mut c = plain.clone();
         match precompute(&mut c, &chain("0")) {
             Err(msg) => out.ev(json!({"ev": "HostPanic", "where": "precompute", "type": "Transaction", "v": proj::transaction(&plain), "msg": msg})),
-            Ok(true) => offsets_event(out, &src, &c, true),
+            Ok(true) => {
+                offsets_event(out, &src, &c, true);
+                // the object that CARRIES metadata is changed in place (fields move) and precomputed again: the offsets reported
+                // afterwards are those of the new layout
+                if k % 3 == 0 {
+                    let mut rng = o.rng(2200 + k as u64);
+                    if grow_in_place(&mut c, &mut rng) && !degenerate(&c) {
+                        if let Ok(true) = precompute(&mut c, &chain("0")) { offsets_event(out, &format!("{src}/re-precomputed"), &c, true); }
+                    }
+                }
+            }
             Ok(false) => {}
         }
     }
